@@ -148,6 +148,23 @@ DeljResidualSlack(grids, k, ix, p, y, v) ==
     LET g == grids[k] N == Len(g) df == DFactor(g) IN
     RMul(df[v], RAdd(IF v > 1 THEN RMul(DeljIntervalErr(grids, k, ix, p, v - 1), RAdd(RAbs(y[v - 1]), RAbs(y[v]))) ELSE "0",
                      IF v < N THEN RMul(DeljIntervalErr(grids, k, ix, p, v), RAdd(RAbs(y[v]), RAbs(y[v + 1]))) ELSE "0"))
+\* Conditioning allowance of the advection term (both settings of the switch).  The code evaluates M at the midpoint
+\* x_I = (x_j + x_j+1)/2 ROUNDED to a double (absolute error <= u = 2^-53, the specification uses the exact midpoint) and
+\* forms M = SUM m_j (o_j - x_I) + Sel(x_I) in double precision.  With |dSel/dx| <= (5/2)|gamma| on [0,1] for h in [0,1]:
+\*   |delta M| <= 2u (SUM |m_j| + (5/2)|gamma|)  +  8u (SUM |m_j (o_j - x_I)| + |Sel(x_I)|).
+\* On grids that crowd the boundary the factor 2/(dx_v-1 + dx_v) turns this into a residual far above tau times the row
+\* scale (observed 3.4e-11 with dx = 1.6e-6 next to dx = 1.3e-3); the allowance is 13 orders of magnitude below M itself.
+AdvIntervalErr(grids, k, ix, p, j) ==
+    LET xI == XInt(grids[k])[j]
+        oth == Others(grids, ix)
+        msum  == RSum([q \in DOMAIN oth |-> IF q = k THEN "0" ELSE RAbs(p.mig[q])])
+        mterm == RSum([q \in DOMAIN oth |-> IF q = k THEN "0" ELSE RAbs(RMul(p.mig[q], RSub(oth[q], xI)))])
+    IN  RAdd(RMul(RMul("2", UDouble), RAdd(msum, RMul("5/2", RAbs(p.gamma)))),
+             RMul(RMul("8", UDouble), RAdd(mterm, RAbs(Sel(xI, p)))))
+AdvResidualSlack(grids, k, ix, p, y, v) ==
+    LET g == grids[k] N == Len(g) df == DFactor(g) IN
+    RMul(df[v], RAdd(IF v > 1 THEN RMul(AdvIntervalErr(grids, k, ix, p, v - 1), RAdd(RAbs(y[v - 1]), RAbs(y[v]))) ELSE "0",
+                     IF v < N THEN RMul(AdvIntervalErr(grids, k, ix, p, v), RAdd(RAbs(y[v]), RAbs(y[v + 1]))) ELSE "0"))
 \* out is the result of one implicit step of ph along axis k with time step dt; deljtab = <<>> when the
 \* Chang-Cooper switch is off, otherwise a record: flat index (as a string) of the line's first point -> weights
 IsStepD(ph, out, grids, k, p, dt, tau, deljtab) ==
@@ -162,7 +179,8 @@ IsStepD(ph, out, grids, k, p, dt, tau, deljtab) ==
           IN  /\ \A v \in 1..Len(y) : IsNum(y[v])
               /\ \A v \in 1..Len(y) :
                     RLeq(RAbs(RSub(r[v], RowApply(sys, invdt, y, v))),
-                         RAdd(RMul(tau, RowScale(sys, invdt, y, r, v)), IF on THEN DeljResidualSlack(grids, k, ix, p, y, v) ELSE "0"))
+                         RAdd(RAdd(RMul(tau, RowScale(sys, invdt, y, r, v)), AdvResidualSlack(grids, k, ix, p, y, v)),
+                              IF on THEN DeljResidualSlack(grids, k, ix, p, y, v) ELSE "0"))
 \* out is the result of one implicit step of ph along axis k with time step dt
 IsStep(ph, out, grids, k, p, dt, tau) ==
     /\ out.sh = ph.sh
